@@ -178,7 +178,7 @@ def fresh_quantize(model_bytes, recipe, calib):
 
 def check_case(case):
   mspec = case['model']
-  model_bytes = G.build(mspec)
+  model_bytes = bytearray(G.build(mspec))   # caller-owned and mutable
   model_snap = bytes(model_bytes)
   qts = [quantizer_mod.Quantizer(model_bytes) for _ in range(case['nq'])]
   cur_recipe = [None] * case['nq']
